@@ -719,3 +719,35 @@ def run(ctx):
         except Exception:   # noqa
             pass
         asyncio.set_event_loop(None)
+
+
+def replay(ctx, data):
+    """./check C04 --replay file: re-run the single history stored in a replay file."""
+    import ndn.utils
+    from harness.lib.core import unjson
+    from ndn.encoding import make_data, MetaInfo
+    case = unjson(data.get('case'))
+    if not isinstance(case, dict) or 'history' not in case:
+        ctx.notes.append('replay: the file holds no single history; full run repeated with the same seed')
+        return run(ctx)
+    fe = {v: k for k, v in FE_NAME.items()}[case['fe']]
+    h = []
+    for e in case['history']:
+        e = list(e)
+        if e[0] in ('att', 'det', 'recv'):
+            e[1] = [bytes(c) for c in e[1]]
+        h.append(tuple(e))
+    if not h or h[-1] != ('settle',):
+        h.append(('settle',))
+    logging.getLogger('ndn').setLevel(logging.CRITICAL)
+    loop = vtloop.new_loop()
+    old_ts = ndn.utils.timestamp
+    ndn.utils.timestamp = loop.now_ms
+    state = {'loop': loop, 'data': bytes(make_data('/a/b/x', MetaInfo(), b'payload')), 'check_norm': True,
+             'collect': True}
+    try:
+        run_history(ctx, fe, h, 'replay', state)
+    finally:
+        ndn.utils.timestamp = old_ts
+        loop.close()
+        asyncio.set_event_loop(None)
